@@ -48,3 +48,31 @@ UNITS.append(Unit('backmp11.on_state_entry_completed', ['C10', 'C13'], 'backmp11
         dict(name='pool-accessor', pat='auto & event_pool = get_event_pool ( ) ;', rep='', min=1, max=1),
         dict(name='CONT-push-front-make', pat='event_pool . events . push_front ( processable_event :: make ( completion_event_occurrence < State > { region_id } ) ) ;', rep='pool_push_front_completion ( self , region_id ) ;', min=1, max=1)]),
     replay=['queue']))
+def gnt(_): return [X.T('g_nt')]
+UNITS.append(Unit('backmp11.on_explicit_entry', ['C09', 'C08', 'C02', 'C04', 'C13'], 'backmp11', Part(SB, [], 'void on_explicit_entry ( Event const & event , Fsm & fsm )'),
+    'void on_explicit_entry(fsm_t* self, event_t event, fsm_t* fsm)', 'cascade_mp11.spec.h',
+    xform=back_xform(['get_state_id', 'get_state'], refparams=(), members=['m_history', 'm_active_state_ids'], methods=['preprocess_entry', 'postprocess_entry'],
+        enums=ENUMS, drop=DROP2, foreach=True, size_of=gnt, throwers=['preprocess_entry', 'visitor_call_state', 'visit_active_entry2', 'postprocess_entry'], exc_ret='',
+        pre_rewrites=[dict(name='TVAR-identities', pat='using state_identities = $*A ;', rep='', min=1, max=1),
+                      dict(name='SCONST-all-regions', pat='static constexpr bool all_regions_defined = mp11 :: mp_size < state_identities > :: value == nr_regions ;', rep='const _Bool all_regions_defined = ( g_nt == nr_regions ) ;', min=0, max=1),
+                      dict(name='SCONST-all-regions2', pat='static constexpr bool all_regions_defined = mp_size < state_identities > :: value == nr_regions ;', rep='const _Bool all_regions_defined = ( g_nt == nr_regions ) ;', min=0, max=1),
+                      dict(name='DECLTYPE-identity', pat='using State = typename decltype ( state_identity ) :: type ;', rep='const type_t State = state_identity ;', min=2, max=2),
+                      dict(name='TVAL-zone', pat='static constexpr uint8_t region_id = State :: zone_index ;', rep='const uint8_t region_id = g_zone [ State ] ;', min=1, max=1)],
+        rewrites=[dict(name='history-entry', pat='self -> m_history . on_entry ( self , event ) ;', rep='m_history_on_entry_ids ( self , event ) ;', min=0, max=1),
+                  dict(name='TVAL-id', pat='get_state_id ( State )', rep='g_tid [ State ]', min=1, max=1),
+                  dict(name='visitor-object', pat='state_entry_visitor < Event > visitor { self , event } ;', rep='ALL_IDS_SET ( ) ;', min=1, max=1),
+                  dict(name='visitor-call', pat='auto & state = self -> get_state ( State ) ; visitor ( state ) ;', rep='visitor_call_state ( self , State ) ;', min=0, max=1),
+                  dict(name='visitor-call2', pat='auto & state = get_state ( State ) ; visitor ( state ) ;', rep='visitor_call_state ( self , State ) ;', min=0, max=1),
+                  dict(name='visit-active', pat='visit < visit_mode :: active_non_recursive > ( visitor ) ;', rep='visit_active_entry2 ( self ) ;', min=0, max=1)]),
+    loops={0: '__CPROVER_assigns(state_identity, __CPROVER_object_upto(self->m_active_state_ids, sizeof(self->m_active_state_ids)))\n'
+              '__CPROVER_loop_invariant(0 <= state_identity && state_identity <= g_nt)\n'
+              '__CPROVER_loop_invariant(g_w < state_identity ==> self->m_active_state_ids[g_zone[g_w]] == g_tid[g_w])\n'
+              '__CPROVER_loop_invariant((NO_TARGET_IN_K && g_hist_called) ==> self->m_active_state_ids[g_k] == g_hist_ids[g_k])\n'
+              '__CPROVER_decreases(g_nt - state_identity)',
+           1: '__CPROVER_assigns(state_identity, g_entry_next, g_exc)\n__CPROVER_loop_invariant(0 <= state_identity && state_identity <= g_nt && g_entry_next == state_identity && !g_exc)\n__CPROVER_decreases(g_nt - state_identity)'},
+    replay=['hist']))
+UNITS.append(Unit('backmp11.on_pseudo_entry', ['C09', 'C13'], 'backmp11', Part(SB, [], 'void on_pseudo_entry ( Event const & event , Fsm & fsm )'),
+    'void on_pseudo_entry(fsm_t* self, event_t event, fsm_t* fsm)', 'cascade_mp11.spec.h',
+    xform=back_xform(['on_explicit_entry'], refparams=(), methods=['process_event'], enums=ENUMS, drop=DROP2, throwers=['on_explicit_entry_stub', 'process_event'], exc_ret='',
+        rewrites=[dict(name='TARG-call', pat='on_explicit_entry ( TargetStates , event , fsm ) ;', rep='on_explicit_entry_stub ( self , event , fsm ) ;', min=1, max=1)]),
+    replay=['hist']))
